@@ -64,7 +64,7 @@ type runSummary struct {
 func snapshotCounts(s *Stats) map[string]int {
 	m := map[string]int{"txns": s.Txns, "commits": s.Commits, "aborts": s.Aborts, "stmts": s.Stmts,
 		"multiblock": s.MultiBlockTxns, "reuse": s.ReuseAfterDelete, "youngcols": s.YoungCols,
-		"restores": s.Restores, "nested": s.Nested, "lateindexes": s.LateIndexes, "dense": s.Tall, "replicas": s.Replicas, "keyed": s.Keyed, "seeded": s.Seeded,
+		"restores": s.Restores, "nested": s.Nested, "lateindexes": s.LateIndexes, "droppedcols": s.DroppedCols, "dense": s.Tall, "replicas": s.Replicas, "keyed": s.Keyed, "seeded": s.Seeded,
 		"failedinserts": s.FailedInserts, "emitted": s.EmittedCommits, "trigger_events": s.TriggerEvents}
 	for k, v := range s.StmtKinds {
 		m["stmt."+k] = v
